@@ -490,6 +490,29 @@ func c14Gen(g *G) {
 		g.Emit(fmt.Sprintf("c14.gen g%d %s %s", i, c14Esc(text), exp), "generate")
 		g.Emit(fmt.Sprintf("c14.regen g%d %s", i, c14Esc(text)), "regenerate")
 	}
+	// (7) degenerate but valid schemas: functions only (no constructor anywhere), constructors only, enums only, one
+	// definition, section markers with nothing between them, a functions section that is empty, the sections the
+	// other way round / several of each. Every shape goes through all four oracles: what the parser extracts, the
+	// classification, the declarations of the package the real tlgen writes (compiled), repeated generation.
+	for round, n := 0, g.N(1, 8); round < n; round++ {
+		for _, sh := range c14Degenerate(r) {
+			tag := fmt.Sprintf("%s.%d", sh.tag, round)
+			plain := c14Render(sh.s, c14Layout{}, r)
+			g.Emit(c14ParseOp(tag, plain, c14ExpectStructure(sh.s)), "degenerate", "degenerate-parse")
+			g.Emit(c14ParseOp(tag, c14Render(sh.s, layouts(), r), c14ExpectStructure(sh.s)), "degenerate-parse")
+			if last := sh.s.items[len(sh.s.items)-1].kind; last == "def" || last == "types" || last == "functions" {
+				// no final newline (a comment must be ended by one: not for those)
+				g.Emit(c14ParseOp(tag, strings.TrimRight(plain, "\n"), c14ExpectStructure(sh.s)), "degenerate-parse")
+			}
+			g.Emit("c14.classify "+c14Esc(plain), "classify", "degenerate-classify")
+			exp := c14ExpectDecls(sh.s)
+			if exp == "" {
+				exp = "="
+			}
+			g.Emit(fmt.Sprintf("c14.gen %s %s %s", tag, c14Esc(plain), exp), "generate", "degenerate-generate")
+			g.Emit(fmt.Sprintf("c14.regen %s %s", tag, c14Esc(plain)), "regenerate", "degenerate-regenerate")
+		}
+	}
 	// (6) several generations from one parsed schema object in this process (no compiler involved: many)
 	for i, n := 0, g.N(60, 600); i < n; i++ {
 		o := c14GenOpts{forGen: true, size: 1 + r.Intn(10), tricky: i%2 == 0, clash: i%3 != 2, spell: i%5 == 0}
